@@ -64,9 +64,10 @@ for e, fns, rep, dfn, d in (
     ('h_lazy_count', ('cds_lfht_resize_lazy_count',), ('_do_cds_lfht_resize', 'cds_lfht_get_count_order_ulong'), (), 'cds_lfht_resize_lazy_count for every power-of-two count: clamped; a grow request only raises, a shrink request only lowers (not while a grow beyond size is pending); target stays a power of two in [1,max]'),
     ('h_count_adddel', ('ht_count_add', 'ht_count_del'), ('_do_cds_lfht_resize', 'cds_lfht_get_count_order_ulong', 'cds_lfht_resize_lazy_count', 'ht_get_split_count_index'), ('COUNT_PART',), 'ht_count_add / ht_count_del for every counter state: the resize request carries a power-of-two count, only every 2^10-th operation, only past the load thresholds'),
     ('h_resize_cb', ('do_resize_cb',), ('_do_cds_lfht_resize', 'cds_lfht_get_count_order_ulong'), (), 'do_resize_cb: registered thread, resize mutex held around the resize, work item freed once'),
+    ('h_destroy_cb', ('do_auto_resize_destroy_cb',), ('_do_cds_lfht_resize', 'cds_lfht_get_count_order_ulong', 'cds_lfht_is_empty', 'cds_lfht_delete_bucket', 'free_split_items_count'), (), 'do_auto_resize_destroy_cb (the deferred half of destroy, run by the resize worker): bucket nodes removed by a registered thread, counters and table released exactly once, worker unregistered, and NOTHING of the table is used after it was handed to the allocator (the harness allocator poisons the released table)'),
     ('h_destroy', ('cds_lfht_destroy',), ('_do_cds_lfht_resize', 'cds_lfht_get_count_order_ulong', 'cds_lfht_is_empty', 'cds_lfht_delete_bucket', 'free_split_items_count'), (), 'cds_lfht_destroy: AUTO_RESIZE: -EPERM on a non-empty table with nothing changed, else in_progress_destroy set and exactly one destroy item queued behind the queued resizes; otherwise synchronous teardown, everything freed once'),
 ):
-    OBLIGATIONS.append(Ob(name='C09.O6.' + e[2:], harness=LZ, entry=e, mode='legacy', defines=D + dfn, replace=rep, unwind=3, min_covers=1 if e == 'h_resize_cb' else 3, checks=CKZ, timeout=300, functions=fns, desc=d))
+    OBLIGATIONS.append(Ob(name='C09.O6.' + e[2:], harness=LZ, entry=e, mode='legacy', defines=D + dfn, replace=rep, unwind=3, min_covers=1 if e in ('h_resize_cb', 'h_destroy_cb') else 3, checks=CKZ, timeout=300, functions=fns, desc=d))
 # "every node present before a resize is still found afterwards" also depends on how a grow links each new bucket node and how a
 # shrink unlinks it: the bodies behind the call shapes of C09.O5 (shared with C08 / C07; obligations/C08.py imports this module,
 # hence the late import, resolved by engine/check.py)
